@@ -56,6 +56,7 @@ type Obs struct {
 	R2      []Entry   `json:"r2,omitempty"`   // given when not the same
 	R2Names []string  `json:"r2names,omitempty"` // names Reverse introduced beyond the universe (never expected)
 	MapRev2 bool      `json:"maprev2"`        // Map.Reverse twice restores every exported set
+	RevBad  string    `json:"revbad,omitempty"` // what is wrong with RevLayout(g), if anything
 	Crash   string    `json:"crash,omitempty"`
 }
 
@@ -611,6 +612,8 @@ func observe(c *Case) *Obs {
 		o.Nodes = append(o.Nodes, no)
 	}
 
+	o.RevBad = checkRevLayout(g, idx, before, o)
+
 	// Map.Reverse twice restores the sets
 	m.Reverse()
 	m.Reverse()
@@ -805,6 +808,9 @@ func maskOracle(n int, mask uint64, o *Obs) string {
 	if !o.R2Same || !o.MapRev2 {
 		return "reverse"
 	}
+	if o.RevBad != "" {
+		return "revlayout"
+	}
 	return ""
 }
 
@@ -862,6 +868,45 @@ func exhaust(n int, seed uint64, sample int, workers int, out *hx.Out) {
 		out.Emit(&all[i])
 	}
 	out.Emit(map[string]interface{}{"summary": true, "n": n, "graphs": count, "oracle_failures": fail, "emitted": len(all)})
+}
+
+
+// checkRevLayout: RevLayout lays the reversed graph out and mirrors the view, so
+// the sets are those of g again, every edge of g goes strictly left to right
+// again (layers now counted from the sinks), and the coordinates are distinct
+// and inside the view.
+func checkRevLayout(g *dags.Graph, idx map[string]int, want map[string][6][]int, o *Obs) string {
+	m, v, err := dags.RevLayout(g)
+	if err != nil {
+		return "error: " + err.Error()
+	}
+	if v.Width != o.W || len(v.Nodes) != len(want) || !v.IsTopDown {
+		return "width, node count or IsTopDown"
+	}
+	got := snapshot(idx, m)
+	for k, w := range want {
+		for i := 0; i < 6; i++ {
+			if !sameInts(got[k][i], w[i]) {
+				return "node sets of " + k
+			}
+		}
+	}
+	seen := map[[2]int]bool{}
+	for k, n := range v.Nodes {
+		if n.X < 0 || n.X >= v.Width || n.Y < 0 || n.Y >= v.Height {
+			return "bounds of " + k
+		}
+		if seen[[2]int{n.X, n.Y}] {
+			return "two nodes at the coordinate of " + k
+		}
+		seen[[2]int{n.X, n.Y}] = true
+		for _, t := range g.Nodes[k] {
+			if !(n.X < v.Nodes[t].X) {
+				return "edge " + k + "->" + t + " is not left to right"
+			}
+		}
+	}
+	return ""
 }
 
 func runCase(c *Case, timeout time.Duration) {
